@@ -16,7 +16,10 @@ import (
 	"errors"
 	"flag"
 	"fmt"
+	"io"
+	"math"
 	"os"
+	"os/exec"
 	"path/filepath"
 	"runtime"
 	"strconv"
@@ -26,6 +29,7 @@ import (
 	"time"
 
 	NoKV "github.com/feichai0017/NoKV"
+	"github.com/feichai0017/NoKV/kv"
 	"github.com/feichai0017/NoKV/utils"
 
 	"verif/harness/hlib"
@@ -52,6 +56,9 @@ func openDB(dir string, kv map[string]int) *NoKV.DB {
 	opt := NoKV.NewDefaultOptions()
 	opt.WorkDir = dir
 	opt.MemTableSize = 8 << 20 // cases write a few KB: nothing is ever flushed, C01's L0 tie cannot interfere
+	if kv["mt"] > 0 {
+		opt.MemTableSize = int64(kv["mt"]) // boundary family (C37): every key is written once
+	}
 	opt.EnableWALWatchdog = false
 	opt.ValueLogGCInterval = 0
 	opt.NumCompactors = 1
@@ -180,9 +187,15 @@ type seqCase struct {
 	parked   map[int]string
 	atClose  map[int]bool
 	asisRace bool
+	timeout  time.Duration // watchdog per call
+	mt       int           // MemTableSize of a small-memtable case, else 0
+	dead     bool          // a call never returned: the commit worker is gone, nothing else will
 }
 
 func (c *seqCase) cleanup() {
+	if c.db != nil && c.dead {
+		c.db = nil // Close would hang as well; the process is a child that exits now
+	}
 	if c.db != nil {
 		if c.throttle && !c.closed {
 			c.db.VerifQueueThrottle(false)
@@ -220,7 +233,7 @@ func (c *seqCase) canon(slot int, r string) string {
 // outstanding call) is provably parked in the throttle wait loop.
 func (c *seqCase) wait(slot int) string {
 	ch := c.calls[slot]
-	deadline := time.Now().Add(callTimeout)
+	deadline := time.Now().Add(c.timeout)
 	for {
 		select {
 		case r := <-ch:
@@ -239,6 +252,7 @@ func (c *seqCase) wait(slot int) string {
 		}
 		if time.Now().After(deadline) {
 			dumpGoroutines("queue_stuck_call.txt")
+			c.dead = true
 			return "stuck"
 		}
 		time.Sleep(100 * time.Microsecond)
@@ -290,8 +304,13 @@ func (e *engine) Exec(ops []string) (out []string) {
 		}()
 	}
 	out = make([]string, len(ops))
+	if !inChild && len(ops) > 0 && strings.HasPrefix(ops[0], "open ") && strings.Contains(ops[0], " mt=") {
+		// small-memtable cases can wedge the commit worker in a busy loop that allocates a
+		// memtable arena per turn: run them in a child process that is killed afterwards
+		return runSeqChild(ops)
+	}
 	c := &seqCase{calls: map[int]chan string{}, parked: map[int]string{}, atClose: map[int]bool{},
-		asisRace: cfgFlag("q.enqFailKeepsRef") == "false"}
+		asisRace: cfgFlag("q.enqFailKeepsRef") == "false", timeout: callTimeout}
 	defer c.cleanup()
 	open := func(kv map[string]int) {
 		c.cleanup()
@@ -301,6 +320,11 @@ func (e *engine) Exec(ops []string) (out []string) {
 		}
 		c.dir = dir
 		c.db = openDB(dir, kv)
+		c.timeout = callTimeout
+		c.mt = kv["mt"]
+		if kv["mt"] > 0 {
+			c.timeout = 3 * time.Second // a write into a 64 KiB memtable takes milliseconds
+		}
 		c.throttle, c.closed = false, false
 		c.calls, c.parked, c.atClose = map[int]chan string{}, map[int]string{}, map[int]bool{}
 	}
@@ -316,10 +340,44 @@ func (e *engine) Exec(ops []string) (out []string) {
 				open(parseKV(nil)) // a case without an `open` line runs on default options, like the model
 			}
 		}
+		if c.dead {
+			out[i] = "skipped"
+			continue
+		}
 		switch f[0] {
 		case "open":
 			open(parseKV(f[1:]))
 			out[i] = "ok"
+		case "setfill":
+			// setfill slot key free delta+2^20: `free` is the generator's prediction of the free
+			// accounted space of the active memtable; the write's size estimate is free+delta
+			if len(f) != 5 {
+				out[i] = "bad-op"
+				continue
+			}
+			if c.db == nil || c.mt == 0 {
+				out[i] = "needs-open" // only meaningful after `open mt=…`
+				continue
+			}
+			slot, _ := strconv.Atoi(f[1])
+			k := hlib.UnHex(f[2])
+			free, _ := strconv.Atoi(f[3])
+			d, _ := strconv.Atoi(f[4])
+			if actual := int(c.db.VerifQueueMemFree()); actual != free {
+				out[i] = fmt.Sprintf("free-mismatch:%d", actual)
+				continue
+			}
+			l := free + d - (1 << 20) - (4 + len(k) + 8) - 52
+			if l < 0 {
+				out[i] = "bad-op"
+				continue
+			}
+			v := bytes.Repeat([]byte{0x66}, l)
+			ch := make(chan string, 1)
+			db := c.db
+			go func() { ch <- doOp(db, "set", k, v) }()
+			c.calls[slot] = ch
+			out[i] = c.wait(slot)
 		case "set", "del", "get":
 			if c.db == nil || (f[0] == "set" && len(f) != 4) || (f[0] != "set" && len(f) != 3) {
 				out[i] = "bad-op"
@@ -399,9 +457,10 @@ func (e *engine) Exec(ops []string) (out []string) {
 			select {
 			case r := <-res:
 				out[i] = r
-			case <-time.After(callTimeout):
+			case <-time.After(c.timeout):
 				dumpGoroutines("queue_stuck_close.txt")
 				out[i] = "stuck"
+				c.dead = true
 			}
 			c.closed = true
 			c.throttle = false
@@ -439,6 +498,9 @@ func (e *engine) Gen(r *hlib.Rand, tier string) []string {
 	}
 	if *prop == "C37" && x < 9 {
 		return genHandshake(r)
+	}
+	if *prop == "C37" && x < 22 {
+		return genBoundary(r)
 	}
 	mbc := hlib.Pick(r, []int{64, 64, 64, 64, 64, 2, 1})
 	mbs := hlib.Pick(r, []int{1 << 20, 1 << 20, 1 << 20, 40, 48, 64})
@@ -575,6 +637,34 @@ func (e *engine) Gen(r *hlib.Rand, tier string) []string {
 	return ops
 }
 
+// genBoundary: writes whose size estimate is exactly / just around the free space of a
+// 64 KiB memtable (value inline), as the first write and after a partial fill: the packing
+// loop of lsm.SetBatch must either write the entry or rotate — and return.
+func genBoundary(r *hlib.Rand) []string {
+	const mt = 65536
+	ops := []string{fmt.Sprintf("open mt=%d vt=1048576 mbs=4194304 mbc=64 hot=0", mt)}
+	free := mt
+	if r.Bool() {
+		l := hlib.Pick(r, []int{1, 100, 1000, 5000, 30000})
+		v := bytes.Repeat([]byte{0x70}, l)
+		e := kv.NewEntry(kv.InternalKey(kv.CFDefault, []byte{0x70}, math.MaxUint64), v)
+		var buf bytes.Buffer
+		payload, err := kv.EncodeEntry(&buf, e)
+		if err != nil {
+			panic(err)
+		}
+		free = mt - (len(payload) + 1 + 8) // WAL record = type byte + payload; +8 accounted per record
+		ops = append(ops, "set 0 70 "+hlib.Hex(v))
+	}
+	delta := hlib.Pick(r, []int{-2, -1, 0, 1, 0, 1})
+	ops = append(ops, fmt.Sprintf("setfill 1 6631 %d %d", free, (1<<20)+delta))
+	ops = append(ops, "set 2 6632 0102", "get 3 6632", "del 4 6632", "get 3 70")
+	if r.Bool() {
+		ops = append(ops, "close", "set 5 6633 01")
+	}
+	return ops
+}
+
 func (e *engine) Nontrivial(ops, impl, model, spec []string) bool {
 	if len(ops) == 1 {
 		return true // conc / live / hs
@@ -615,6 +705,11 @@ func (e *engine) Nontrivial(ops, impl, model, spec []string) bool {
 		}
 	}
 	if *prop == "C37" {
+		for _, op := range ops {
+			if strings.HasPrefix(op, "setfill ") {
+				return true
+			}
+		}
 		return pendingDone || afterClose
 	}
 	return readBack && errClass
@@ -636,10 +731,86 @@ func stickyRun(op, nominal string, run func() string) string {
 	return r
 }
 
+var inChild bool
+
+// runSeqChild executes one case in a child copy of this binary (`seq-child`), one output line
+// per op; the child exits right after a call got stuck, which also ends the spinning worker.
+func runSeqChild(ops []string) []string {
+	out := make([]string, len(ops))
+	for i := range out {
+		out[i] = "child-died"
+	}
+	exe, err := os.Executable()
+	if err != nil {
+		return out
+	}
+	cfg := ""
+	for i, a := range os.Args {
+		if a == "-cfg" && i+1 < len(os.Args) {
+			cfg = os.Args[i+1]
+		}
+	}
+	cmd := exec.Command(exe, "seq-child", "-prop", *prop, "-cfg", cfg)
+	cmd.Stdin = strings.NewReader(strings.Join(ops, "\n") + "\n")
+	cmd.Env = append(os.Environ(), "GOMEMLIMIT=3GiB")
+	var buf bytes.Buffer
+	cmd.Stdout = &buf
+	done := make(chan struct{})
+	if err := cmd.Start(); err != nil {
+		return out
+	}
+	go func() { cmd.Wait(); close(done) }()
+	select {
+	case <-done:
+	case <-time.After(90 * time.Second):
+		cmd.Process.Kill()
+		<-done
+	}
+	n := 0
+	for _, l := range strings.Split(buf.String(), "\n") {
+		if strings.HasPrefix(l, "OUT ") && n < len(out) {
+			out[n] = strings.TrimPrefix(l, "OUT ")
+			n++
+		}
+	}
+	return out
+}
+
+func seqChildMain() {
+	inChild = true
+	os.MkdirAll("work", 0o755)
+	if f, err := os.OpenFile(filepath.Join("work", "queue_seq_child.log"), os.O_CREATE|os.O_WRONLY|os.O_TRUNC, 0o644); err == nil {
+		_ = syscall.Dup2(int(f.Fd()), 2)
+	}
+	real := os.NewFile(uintptr(func() int { fd, _ := syscall.Dup(1); return fd }()), "stdout")
+	if f, err := os.OpenFile(filepath.Join("work", "queue_seq_child.log"), os.O_APPEND|os.O_WRONLY, 0o644); err == nil {
+		_ = syscall.Dup2(int(f.Fd()), 1) // utils.Err prints to stdout
+	}
+	for i, a := range os.Args {
+		if a == "-prop" && i+1 < len(os.Args) {
+			*prop = os.Args[i+1]
+		}
+	}
+	data, _ := io.ReadAll(os.Stdin)
+	var ops []string
+	for _, l := range strings.Split(string(data), "\n") {
+		if strings.TrimSpace(l) != "" {
+			ops = append(ops, l)
+		}
+	}
+	for _, o := range (&engine{}).Exec(ops) {
+		fmt.Fprintln(real, "OUT "+o)
+	}
+	os.Exit(0)
+}
+
 // hsChildMain is set in the overlay build only (hs_child.go).
 var hsChildMain func(sched []string)
 
 func main() {
+	if len(os.Args) > 1 && os.Args[1] == "seq-child" {
+		seqChildMain()
+	}
 	if len(os.Args) > 1 && os.Args[1] == "hs-child" {
 		if hsChildMain == nil {
 			fmt.Println("child-not-instrumented")
